@@ -142,6 +142,7 @@ func (c *Compiler) codeToOpcodeSet(typ *runtime.Type, code Code) (*OpcodeSet, er
 	noescapeKeyCode := c.codeToOpcode(&compileContext{
 		structTypeToCodes: map[uintptr]Opcodes{},
 		recursiveCodes:    &Opcodes{},
+		recursiveTargets:  map[*Opcode]*StructCode{},
 	}, typ, code)
 	if err := noescapeKeyCode.Validate(); err != nil {
 		return nil, err
@@ -149,6 +150,7 @@ func (c *Compiler) codeToOpcodeSet(typ *runtime.Type, code Code) (*OpcodeSet, er
 	escapeKeyCode := c.codeToOpcode(&compileContext{
 		structTypeToCodes: map[uintptr]Opcodes{},
 		recursiveCodes:    &Opcodes{},
+		recursiveTargets:  map[*Opcode]*StructCode{},
 		escapeKey:         true,
 	}, typ, code)
 	noescapeKeyCode = copyOpcode(noescapeKeyCode)
@@ -643,6 +645,7 @@ func (c *Compiler) structCode(typ *runtime.Type, isPtr bool) (*StructCode, error
 	if code, exists := c.structTypeToCode[typeptr]; exists {
 		derefCode := *code
 		derefCode.isRecursive = true
+		derefCode.target = code
 		return &derefCode, nil
 	}
 	indirect := runtime.IfaceIndir(typ)
@@ -990,9 +993,21 @@ func (c *Compiler) codeToOpcode(ctx *compileContext, typ *runtime.Type, code Cod
 
 func (c *Compiler) linkRecursiveCode(ctx *compileContext) {
 	recursiveCodes := map[uintptr]*CompiledCode{}
-	for _, recursive := range *ctx.recursiveCodes {
+	// (by index: compiling a missing target below can add recursive opcodes)
+	for i := 0; i < len(*ctx.recursiveCodes); i++ {
+		recursive := (*ctx.recursiveCodes)[i]
 		typeptr := uintptr(unsafe.Pointer(recursive.Type))
-		codes := ctx.structTypeToCodes[typeptr]
+		codes, exists := ctx.structTypeToCodes[typeptr]
+		if !exists {
+			// the program holds the struct only cut down by a field query (or not at all): the
+			// recursive occurrence encodes the whole struct, whose program is compiled now
+			if target := ctx.recursiveTargets[recursive]; target != nil {
+				whole := *target
+				whole.isRecursive = false
+				codes = whole.ToOpcode(ctx)
+				codes.Last().Next = newEndOp(ctx, recursive.Type)
+			}
+		}
 		if recursiveCode, ok := recursiveCodes[typeptr]; ok {
 			*recursive.Jmp = *recursiveCode
 			continue
